@@ -319,6 +319,9 @@ func (r *Run) writeEvidence(newViol, known int) {
 		"violations":  newViol,
 	}
 	b, _ := json.MarshalIndent(ev, "", " ")
+	if !strings.HasPrefix(r.Prop, "C") { // development drivers are not properties
+		return
+	}
 	dir := filepath.Join(Root(), "evidence")
 	_ = os.MkdirAll(dir, 0o755)
 	_ = os.WriteFile(filepath.Join(dir, r.Prop+".json"), b, 0o644)
